@@ -167,6 +167,13 @@ func history(c *lib.Ctx, r *lib.Rand, hi int, steps int, lossPct int) {
 				fail("pool:stale", "a response to an earlier request was accepted or changed the pool: "+a, nil)
 			}
 		}
+		if r.Chance(20) { // an off-path forgery: right identifier, a cookie field, no valid authenticator
+			c.Count("exchange:forged-response")
+			forged := ntsx.ForeignPacket(ntsx.Header(r), [][]byte{ntsx.RawField(0x104, uid), ntsx.RawField(0x204, r.Bytes(124))}, r.Bytes(32), r.Bytes(16), nil)
+			if a := do("cl.response " + lib.Hex(forged)); ntsx.IsOK(a) || level(do("cl.level")) != lv-1 {
+				fail("pool:forged", "a forged response was accepted or changed the pool: "+a, nil)
+			}
+		}
 		ans = do("cl.response " + lib.Hex(resp))
 		if !ntsx.IsOK(ans) {
 			fail("reply:auth", "the client rejects the server's reply: "+ans, map[string]any{"level": lv})
